@@ -4,7 +4,7 @@ use quote::ToTokens;
 use syn::visit_mut::{self, VisitMut};
 use syn::{Attribute, Expr, Stmt};
 
-fn eval_meta(m: &syn::Meta, feats: &[String]) -> bool {
+pub fn eval_meta(m: &syn::Meta, feats: &[String]) -> bool {
     match m {
         syn::Meta::Path(p) => { let _ = p; false } // test, kani, custom cfgs: off
         syn::Meta::NameValue(nv) => {
